@@ -114,8 +114,8 @@ dreadMM(FILE *fp, int *m, int *n, int_t *nonz,
       exit(-1);
    }
 
-    if(expand)
-      new_nonz = 2 * *nonz - *n;
+    if(expand) /* upper bound: the diagonal entries need not all be present */
+      new_nonz = 2 * *nonz;
     else
       new_nonz = *nonz;
 
